@@ -188,6 +188,19 @@ impl RoutingThread {
                 self.process_peer_services(services, peer_index).await;
             }
             Message::GhostChain(chain) => {
+                {
+                    let configs = self.config_lock.read().await;
+                    if !(configs.is_browser() || configs.is_spv_mode()) {
+                        // only a lite node, which validates no transactions, follows a chain that is
+                        // described by hashes. on a full node a block built on a ghost block would be
+                        // accepted without any of its transactions being checked
+                        warn!(
+                            "ghost chain received from peer : {:?} is not processed since this is not a lite node",
+                            peer_index
+                        );
+                        return;
+                    }
+                }
                 self.process_ghost_chain(chain, peer_index).await;
             }
             Message::GhostChainRequest(block_id, block_hash, fork_id) => {
